@@ -2220,3 +2220,36 @@ Lemma load_model_ext_hit x ld m g s m' :
   dhas g (local_of m s) = false -> dget g (allm s) = None -> x g = Some m' ->
   load_model (with_ext x ld) m g s = (None, set_local m g m' (set_all g m' s)).
 Proof. intros H1 H2 H3. unfold load_model, with_ext. rewrite H1, H2, H3. reflexivity. Qed.
+
+(* ================================================================== 11. names defined twice in one file *)
+Lemma resolve_refs_duplicate_refused c s x n ns t i :
+  cunique c = true -> resolve_name c s x n = Some (t, i) -> dup_in s n t = true -> resolve_refs c s x (n :: ns) = None.
+Proof. intros Hu Hr Hd. cbn [resolve_refs]. rewrite Hr. cbn [fst]. rewrite Hu, Hd. reflexivity. Qed.
+
+Lemma resolve_refs_first_taken c s x n ns tg :
+  (cunique c = false \/ dup_in s n (fst tg) = false) -> resolve_name c s x n = Some tg ->
+  resolve_refs c s x (n :: ns) = option_map (cons (Some tg)) (resolve_refs c s x ns).
+Proof.
+  intros H Hr. cbn [resolve_refs]. rewrite Hr. destruct H as [H|H]; rewrite H; [reflexivity|]. rewrite andb_false_r. reflexivity.
+Qed.
+
+Lemma find_elem_first n es i : find_elem n es = Some i ->
+  nth_error es i = Some n /\ forall j, j < i -> nth_error es j <> Some n.
+Proof.
+  revert i. induction es as [|e l IH]; intros i; cbn [find_elem]; [discriminate|].
+  destruct (N.eqb e n) eqn:E.
+  - intro H. inversion H; subst. apply N.eqb_eq in E. subst. split; [reflexivity | intros j Hj; lia].
+  - destruct (find_elem n l) as [k|]; [|discriminate]. cbn. intro H. inversion H; subst.
+    destruct (IH k eq_refl) as [H1 H2]. split; [exact H1|]. intros [|j] Hj; cbn.
+    + intro H0. inversion H0; subst. rewrite N.eqb_refl in E. discriminate.
+    + apply H2. lia.
+Qed.
+
+Lemma resolve_name_first_occurrence c s x n t i : resolve_name c s x n = Some (t, i) ->
+  exists fc, cont_of t s = Some fc /\ nth_error (felems fc) i = Some n /\ forall j, j < i -> nth_error (felems fc) j <> Some n.
+Proof.
+  rewrite resolve_name_order. intro H. apply first_some_in in H as [a [_ Hl]].
+  unfold lookup_in in Hl. destruct (cont_of a s) as [fc|] eqn:Ec; [|discriminate].
+  destruct (find_elem n (felems fc)) as [k|] eqn:Ef; [|discriminate]. cbn in Hl. inversion Hl; subst a k.
+  exists fc. split; [exact Ec | apply find_elem_first; exact Ef].
+Qed.
